@@ -35,6 +35,7 @@ type c21World struct {
 	viol                 *dsim.Violation
 	sends                []*sig.SendOp
 	rerefs               int
+	expired              int
 	relSeq               int
 	restarts, maxRestart int
 }
@@ -46,7 +47,7 @@ func init() {
 		Cfg:        defaultCfg,
 		Real:       []string{"signaling/rpc/server.Server", "signaling/rpc/client.Client (Send incl. cancellation/clear path, Recv, session routine)", "util keyed/routine/backoff", "peer.SignedMsg"},
 		Stub:       []string{"srpc transport replaced by simulator-owned message streams", "stream identity callback", "util/broadcast lock instrumented"},
-		FaultKinds: []string{"fault:stream-reset", "fault:clock-jump", "fault:send-cancel", "fault:wire-drop", "fault:wire-dup", "fault:peer-ref-released", "fault:relay-restart"},
+		FaultKinds: []string{"fault:stream-reset", "fault:clock-jump", "fault:send-cancel", "fault:wire-drop", "fault:wire-dup", "fault:peer-ref-released", "fault:relay-restart", "fault:recv-with-expired-context"},
 	})
 }
 
@@ -67,6 +68,13 @@ func (w *c21World) Setup(s *dsim.Sim) {
 		w.cw.AddClient(n, bo)
 	}
 	w.maxReset = t.Draw(4, "max-resets")
+	// in some runs the applications receive only when they get round to it (no receive
+	// loop), so that messages wait in the client
+	if t.Bool(1, 3, "manual-recv") {
+		for _, n := range w.names {
+			w.cw.Nodes[n].ManualRecv = true
+		}
+	}
 	if t.Bool(1, 3, "relay-restarts") {
 		w.maxRestart = 1 + t.Draw(2, "max-restarts")
 	}
@@ -154,6 +162,34 @@ func (w *c21World) Actions(s *dsim.Sim, add func(dsim.Action)) {
 					payload := fmt.Sprintf("%s%sr%d", p, q, n)
 					w.toIssue = append(w.toIssue, pendingOp{name: "3op:" + p + ".send." + payload, ready: func() bool { return P.Refs[q] != nil },
 						fire: func() { w.sends = append(w.sends, P.StartSend(q, payload)) }})
+				}})
+			}
+		}
+	}
+	for _, p := range w.names {
+		P := w.cw.Nodes[p]
+		if !P.ManualRecv {
+			continue
+		}
+		for _, q := range w.names {
+			p, q := p, q
+			if P.Refs[q] != nil && !P.RecvBusy[q] {
+				add(dsim.Action{Name: "3op:app-recv:" + p + q, Weight: 3, Fire: func() { P.StartRecv(q) }})
+			}
+		}
+	}
+	if s.Phase == dsim.PhaseChaos && w.expired < 3 && s.ParkedCount() == 0 {
+		for _, p := range w.names {
+			P := w.cw.Nodes[p]
+			for _, q := range w.names {
+				p, q := p, q
+				if P.Refs[q] == nil {
+					continue
+				}
+				add(dsim.Action{Name: "5flt:recv-expired-ctx:" + p + q, Weight: 1, Fault: true, Fire: func() {
+					w.expired++
+					s.Count("fault:recv-with-expired-context")
+					P.RecvExpired(q)
 				}})
 			}
 		}
